@@ -20,6 +20,10 @@ Requests (reply: impl-result TAB spec-on-go TAB spec-on-impl TAB guard-ids):
   set PT PV I O GO      GO = panic | error | (ok PV' READ), READ = panic | error | (ok O)
   call T O GO           GO = panic | error | (ok V O)
   retry T V I GO        a struct whose first conversion failed, converted again; GO = (ok PV READ)
+  calln PTS OS GO       a method with parameters PTS = (struct T*) called with OS = (l O*);
+                        GO = panic | error | (ok (st V*) (l O*))   received values, returned objects
+  reuse HIST N GO       one VM, the supplies HIST = (h (NAME T V)*) in the order they were made,
+                        then a run that reads global NAME = N;  GO = panic | error | (ok O)
 -/
 namespace Risor.C08
 open Risor.Util
@@ -276,6 +280,43 @@ def pCallPayload : Nat → P (GoVal × Obj)
     let (o, r) ← pObj n r
     some ((v, o), r)
 
+def pCallNPayload : Nat → P (Vals × Objs)
+  | n, r => do
+    let (v, r) ← pVal n r
+    let (o, r) ← pObj n r
+    match v, o with
+    | .struct xs, .list rs => some ((xs, rs), r)
+    | _, _ => none
+
+def pBindings : Nat → P (List Binding)
+  | 0, _ => none
+  | _ + 1, ")" :: r => some ([], r)
+  | n + 1, "(" :: name :: r => do
+    let name ← name.toNat?
+    let (t, r) ← pTy (n + 1) r
+    let (v, r) ← pVal (n + 1) r
+    let (_, r) ← close () r
+    let (bs, r) ← pBindings n r
+    some ((name, t, v) :: bs, r)
+  | _, _ => none
+
+def pHist : Nat → P (List Binding)
+  | n, "(" :: "h" :: r => pBindings n r
+  | _, _ => none
+
+def showCallN (r : Outcome (Vals × Objs)) : String :=
+  showOutcome (fun p => "(st" ++ showVals p.1 ++ ") (l" ++ showObjs p.2 ++ ")") r
+
+def specCallN (F : FOps) (pts : Fields) (os : Objs) (res : Outcome (Vals × Objs)) : Bool :=
+  match res with
+  | .panic => false
+  | .error => true
+  | .ok (xs, rs) => reprArgs F pts xs os && reprArgs F pts xs rs
+
+def retGuards : Fields → Vals → List Finding
+  | .cons t ts, .cons x xs => crossGuards .get t x ++ retGuards ts xs
+  | _, _ => []
+
 def showRt (r : Outcome (Obj × Outcome GoVal)) : String :=
   showOutcome (fun p => showObj p.1 ++ " " ++ showOutcome showVal p.2) r
 
@@ -400,6 +441,28 @@ def handle : List String → String
         | _ => []
       reply (showCall impl) (specCall nativeF pt o go) (specCall nativeF pt o impl)
         (callGuards nativeF pt o ++ rdGuards)
+    | _, _, _ => "error\tbad-request"
+  | ["calln", pts, os, go] =>
+    match parseAll pTy pts, parseAll pObj os, parseAll (pOutcome pCallNPayload) go with
+    | some (.struct pts), some (.list os), some go =>
+      let impl := callEchoN nativeF pts os
+      let rdGuards := match callArgs nativeF pts os with
+        | .ok xs => retGuards pts xs
+        | _ => []
+      reply (showCallN impl) (specCallN nativeF pts os go) (specCallN nativeF pts os impl)
+        (callNGuards nativeF pts os ++ rdGuards)
+    | _, _, _ => "error\tbad-request"
+  | ["reuse", hist, n, go] =>
+    match parseAll pHist hist, n.toNat?, parseAll (pOutcome pObj) go with
+    | some hist, some n, some go =>
+      let hist := hist.reverse            -- the model takes the latest supply first
+      let impl := reuseRead nativeF hist n
+      let own := match lastSupplied n hist with
+        | some (ty, v) => crossGuards .create ty v
+        | none => []
+      reply (showOutcome showObj impl) (specReuse nativeF hist n go) (specReuse nativeF hist n impl)
+        (own ++ heldGuards (held hist)) ++ "\t" ++
+        (if hist.all (fun b => hasTy b.2.1 b.2.2) then "typed" else "illtyped")
     | _, _, _ => "error\tbad-request"
   | _ => "error\tunknown-request"
 
